@@ -67,7 +67,7 @@ def run(ctx):
             return PyFunc(lambda a, k: Obj(f"ps_{name}", {"constrained": constrained, "auxdata": [Poly.atom(f"AUX_{name}0"), Poly.atom(f"AUX_{name}1")]}), f"ctor_{name}")
         params_mod = Obj("pyhf.parameters", {"T_a": ctor("a", True), "T_b": ctor("b", False), "T_c": ctor("c", True)})
         reqs = {"a": {"paramset_type": "T_a"}, "b": {"paramset_type": "T_b"}, "c": {"paramset_type": "T_c"}}
-        out = Interp({"_reqs": reqs, "pyhf": Obj("pyhf", {"parameters": params_mod})}, {}, {}).run(A.strip_docstring(cps.node.body))
+        out = Interp({(cps.node.args.args[0].arg if cps.node.args.args else "_reqs"): reqs, "pyhf": Obj("pyhf", {"parameters": params_mod})}, {}, {}).run(A.strip_docstring(cps.node.body))
         # the three results by what they ARE (that the caller unpacks them in the order they are returned is C01.R11's composition check)
         parts = list(out) if isinstance(out, (tuple, list)) else []
         sets = next((x for x in parts if isinstance(x, dict)), None)
